@@ -66,7 +66,7 @@ PLAN = dict(
         emit=dict(np=2, bud=[1], depth=3, cache="none", pats=[[1], [2]], get=["I1", "I2", "P", "I3"]),
         content=[dict(np=2, maxlines=5, cbud=[0, 1, 2, INF], paths=MPATHS),
                  dict(np=3, maxlines=3, cbud=[0, 1, 2, INF], paths=MPATHS)],
-        nsim=30000, hist_cap=30000, nrand_hist=8000, content_cap=10000, nrand_content=3000, tests_cases=1000,
+        nsim=40000, hist_cap=50000, nrand_hist=12000, content_cap=16000, nrand_content=5000, tests_cases=1500,
         grep_every=2, selftest=80),
 )
 SIM = dict(np=3, bud=[0, 1, 2, INF], depth=8, cache="all", get=["I1", "I2", "P", "I3", "P2"],
